@@ -90,6 +90,10 @@ func decodeCode(r *bytes.Reader, codeSectionStart uint64, ret *wasm.Code) (err e
 	}
 
 	bodyOffsetInCodeSection := codeSectionStart - uint64(r.Len())
+	// Do not allocate for a declared size that the remaining input cannot hold.
+	if err = checkRemaining(r, uint64(remaining)); err != nil {
+		return fmt.Errorf("read body: %w", err)
+	}
 	body := make([]byte, remaining)
 	if _, err = io.ReadFull(r, body); err != nil {
 		return fmt.Errorf("read body: %w", err)
